@@ -64,6 +64,12 @@ func appendHashBytes(b []byte, obj slip.Object) []byte {
 			f = 0.0 // -0.0 is equal to 0 and 0.0
 		}
 		return strconv.AppendFloat(b, f, 'g', -1, 64)
+	case slip.Complex:
+		// A complex number with a zero imaginary part is equal to the real
+		// number, (equal #C(1 0) 1) => t.
+		if imag(complex128(to)) == 0.0 {
+			return appendHashBytes(b, slip.DoubleFloat(real(complex128(to))))
+		}
 	case slip.String:
 		// equal compares strings with strings.EqualFold() so the hash must
 		// not depend on the case of any letter, not only the ASCII letters.
